@@ -1,7 +1,7 @@
 (* C17 - approximate equality is number by number for every type. *)
 From Coq Require Import List ZArith Bool.
 From Flocq Require Import Core BinarySingleNaN.
-Require Import PP.FloatModel PP.FloatOrder PP.Expr PP.FloatOps PP.ApproxShapes PP.Proofs.ApproxProofs PP.Gen.Kernels.
+Require Import PP.FloatModel PP.FloatOrder PP.Expr PP.FloatOps PP.ApproxShapes PP.Proofs.ApproxProofs PP.Proofs.ApproxWhole PP.Gen.Kernels.
 Import ListNotations.
 
 (* scalar_rel RAbs a b eps _  = approx's abs_diff_eq on f64: |a - b| <= eps;
@@ -148,6 +148,42 @@ Proof.
   intros A p l x Hin Hp. destruct (forallb p l) eqn:E; [|reflexivity].
   rewrite forallb_forall in E. rewrite (E x Hin) in Hp. discriminate.
 Qed.
+
+(* the same statement on whole values: xs and ys are the numbers of the two values (coefficients, additive constants, breakpoint),
+   in order; env2 xs ys eps rel = xs ++ ys ++ [eps; rel].  For EVERY impl of the table and all inputs: *)
+Theorem C17_impl_pairs :
+  Forall (fun e => forall xs ys eps rel, length xs = snd (fst e) -> length ys = snd (fst e) ->
+    beval FOps0 (env2 xs ys eps rel) (snd e) = forallb (fun p => scalar_rel (fst (fst e)) (fst p) (snd p) eps rel) (combine xs ys)) C17_table.
+Proof. exact (table_pairs C17_table C17_number_by_number). Qed.
+(* ... symmetric: swapping the two values never changes the answer *)
+Theorem C17_impl_symmetric :
+  Forall (fun e => forall xs ys eps rel, length xs = snd (fst e) -> length ys = snd (fst e) ->
+    beval FOps0 (env2 xs ys eps rel) (snd e) = beval FOps0 (env2 ys xs eps rel) (snd e)) C17_table.
+Proof. exact (table_symmetric C17_table C17_number_by_number). Qed.
+(* ... reflexive on finite values (any non-negative epsilon, any max_relative) *)
+Theorem C17_impl_reflexive :
+  Forall (fun e => forall xs eps rel, length xs = snd (fst e) -> (forall a, In a xs -> is_finite a = true) -> fle fzero eps = true ->
+    beval FOps0 (env2 xs xs eps rel) (snd e) = true) C17_table.
+Proof. exact (table_reflexive C17_table C17_number_by_number). Qed.
+(* ... falsified by any single position whose scalar relation fails, whatever the other positions hold *)
+Theorem C17_impl_falsified_by_one :
+  Forall (fun e => forall xs ys eps rel i, length xs = snd (fst e) -> length ys = snd (fst e) -> (i < snd (fst e))%nat ->
+    scalar_rel (fst (fst e)) (nth i xs fnan) (nth i ys fnan) eps rel = false ->
+    beval FOps0 (env2 xs ys eps rel) (snd e) = false) C17_table.
+Proof. exact (table_falsified_by_one C17_table C17_number_by_number). Qed.
+(* the slice rule (Piecewise, PolyN) inherits symmetry from the element relation *)
+Theorem C17_slice_symmetric : forall (A : Type) (r : A -> A -> bool), (forall a b, r a b = r b a) ->
+  forall x y : list A, slice_rel r x y = slice_rel r y x.
+Proof.
+  intros A r S x y. unfold slice_rel. rewrite (PeanoNat.Nat.eqb_sym (length x) (length y)). f_equal.
+  exact (forallb_combine_sym r S x y).
+Qed.
+(* non-vacuity: a Segment<Poly1> (3 numbers) compared with itself and with a copy moved in one position *)
+Example C17_impl_example :
+  let one := of_bits 4607182418800017408%Z in let two := of_bits 4611686018427387904%Z in
+  beval FOps0 (env2 [one; two; one] [one; two; one] fzero fzero) k_Segment_Poly1__relative_eq = true /\
+  beval FOps0 (env2 [one; two; one] [one; one; one] fzero fzero) k_Segment_Poly1__relative_eq = false.
+Proof. vm_compute. split; reflexivity. Qed.
 
 (* scalar consequences *)
 Theorem C17_abs_reflexive : forall a eps : F, is_finite a = true -> fle fzero eps = true -> f_absdiffeq a a eps = true.
